@@ -103,6 +103,12 @@ def malloc_result(name, args):
     return T.concat([T.const(4, 0), T.opaque(60, "call:" + name, *args)])
 
 
+# C library functions that are the reference for the C12 specifications
+C_SPEC2 = {"fmax": "fmax", "fmaxf": "fmax", "fmin": "fmin", "fminf": "fmin", "fdim": "fdim", "fdimf": "fdim",
+           "ldexp": "ldexp", "ldexpf": "ldexp", "scalbn": "ldexp", "scalbnf": "ldexp"}
+C_SPEC1 = {"ilogb": "ilogb", "ilogbf": "ilogb", "logb": "logb", "logbf": "logb"}
+
+
 class Interp:
     def __init__(self, module, isa=None):
         self.m = module
@@ -508,6 +514,14 @@ class Interp:
                 return malloc_result(name, args)
             if name in ("aligned_alloc", "free"):
                 return T.opaque(bits, "call:" + name, *args) if bits else None
+            if name in C_SPEC2:
+                return T.op("spec:c_" + C_SPEC2[name], bits, args[0], args[1])
+            if name in C_SPEC1:
+                return T.op("spec:c_" + C_SPEC1[name], bits, args[0])
+            if name in ("frexp", "frexpf"):
+                # double frexp(double, int*): exponent stored through the pointer
+                self.do_store(args[1], T.op("spec:c_frexp_e", 32, args[0]), cond, 4, name, ins.get("loc"))
+                return T.op("spec:c_frexp_m", bits, args[0])
             if name in ("copysign", "copysignf"):
                 return T.concat([T.slice_(args[0], 0, bits - 1), T.msb(args[1])])
             if name in ("fabs", "fabsf"):
